@@ -48,6 +48,18 @@ CHECKS = {
                      'orders and all outputs must be equal. A second exploration makes the registration order of a 3-file set and the number of read_xml calls on '
                      'the same FilesToRead symbolic. z3 decides which permutations are feasible; differing outputs are replayed natively (fresh processes / driver).',
                 note='trusted: SMI environment models (HashMap = association list + arbitrary order, BTreeMap = sorted); maps <= 3 entries; hash-seed replays are statistical'),
+    'C08': dict(engine='E2-smi', cat='model_checking', design='4/C08',
+                technique='symbolic execution of reader + emitter MIR over extension forests with symbolic declaration order; z3 per-path oracle queries; native replay',
+                text='Extension chains (depth 1..2, empty extension, attributes inside xs:extension and on the base, sequence+choice content, a decoy type whose local '
+                     'names equal the base names, base in another namespace/file) are explored with the declaration order as a symbolic permutation; z3 decides '
+                     'per path whether the derived struct differs from base members followed by own members (names, kinds, types, declaring namespace).',
+                note='trusted: SMI environment models, reference model of xs:extension in lib/e2props.py; depth <= 2, one file or two files'),
+    'C09': dict(engine='E2-smi', cat='model_checking', design='4/C09',
+                technique='symbolic execution of reader + emitter MIR over name-colliding schemas with symbolic reference prefixes and declaration order',
+                text='Two namespaces define complexTypes of the same local name with different members; the prefix of type= and base= references and the '
+                     'declaration order are symbolic, and one prefix is bound to different namespaces in different files. z3 decides per path whether a field type '
+                     'or an inherited member list belongs to the namespace the prefix denotes.',
+                note='trusted: SMI environment models; two namespaces / two files; complexType references only (message parts: C05)'),
 }
 
 NA = {
@@ -55,7 +67,7 @@ NA = {
     'C04': 'deserialization and round-trip are executed by yaserde derive expansion and xml-rs at run time (fmt/dyn/heap); CBMC cannot get through it and the MIR interpreter covers zeep, not yaserde',
     'C18': 'Send/Sync are auto-trait facts computed by rustc from the coroutine layout, not properties of executions a bounded symbolic run can falsify',
 }
-PENDING = ['C03', 'C05', 'C07', 'C08', 'C09', 'C10', 'C13', 'C14', 'C16', 'C17']
+PENDING = ['C03', 'C05', 'C07', 'C10', 'C13', 'C14', 'C16', 'C17']
 
 
 def main():
